@@ -21,15 +21,15 @@ Theorem C04_roundtrip : forall compress decompress, codec_ok compress decompress
   forall e s n fuel, (n <= fuel)%nat -> forall sync, length sync = 16%nat -> Forall is_byte sync ->
   forall sync_interval meta records hf,
   meta_ok meta -> Forall (typedn n e s) records -> len records < 2 ^ 63 -> (3 <= hf)%nat ->
-  small_run compress sync sync_interval (wcreate sync meta) (write_all records) ->
+  small_run compress sync (wcreate sync meta sync_interval) (write_all records) ->
   exists nb, forall k, (nb < k)%nat ->
     read_container decompress e s fuel hf k
-      (out (flush compress sync (run compress sync sync_interval (wcreate sync meta) (write_all records))))
+      (out (flush compress sync (run compress sync (wcreate sync meta sync_interval) (write_all records))))
     = (records, EndOK).
 Proof.
   intros compress decompress Hc e s n fuel Hf sync Hs Hsb si meta records hf Hm Ht Hl Hhf Hsm.
   pose proof (submitted_write_all records) as Hsub.
-  destruct (history_reads_back compress decompress Hc e s n fuel Hf sync Hs Hsb si meta (write_all records) hf Hm) as [nb Hnb];
+  destruct (history_reads_back compress decompress Hc e s n fuel Hf sync Hs Hsb meta (write_all records) hf Hm) with (si := si) as [nb Hnb];
     try assumption.
   - unfold write_all. apply Forall_map. exact Ht.
   - rewrite Hsub. exact Hl.
@@ -67,11 +67,11 @@ Theorem C04_sync_interval_irrelevant : forall compress decompress, codec_ok comp
   forall e s n fuel, (n <= fuel)%nat -> forall sync, length sync = 16%nat -> Forall is_byte sync ->
   forall si1 si2 meta records hf,
   meta_ok meta -> Forall (typedn n e s) records -> len records < 2 ^ 63 -> (3 <= hf)%nat ->
-  small_run compress sync si1 (wcreate sync meta) (write_all records) ->
-  small_run compress sync si2 (wcreate sync meta) (write_all records) ->
+  small_run compress sync (wcreate sync meta si1) (write_all records) ->
+  small_run compress sync (wcreate sync meta si2) (write_all records) ->
   exists nb, forall k, (nb < k)%nat ->
-    read_container decompress e s fuel hf k (out (flush compress sync (run compress sync si1 (wcreate sync meta) (write_all records)))) =
-    read_container decompress e s fuel hf k (out (flush compress sync (run compress sync si2 (wcreate sync meta) (write_all records)))).
+    read_container decompress e s fuel hf k (out (flush compress sync (run compress sync (wcreate sync meta si1) (write_all records)))) =
+    read_container decompress e s fuel hf k (out (flush compress sync (run compress sync (wcreate sync meta si2) (write_all records)))).
 Proof.
   intros compress decompress Hc e s n fuel Hf sync Hs Hsb si1 si2 meta records hf Hm Ht Hl Hhf Hs1 Hs2.
   destruct (C04_roundtrip compress decompress Hc e s n fuel Hf sync Hs Hsb si1 meta records hf Hm Ht Hl Hhf Hs1) as [n1 H1].
@@ -83,14 +83,14 @@ Print Assumptions C04_sync_interval_irrelevant.
 (** the model's I/O: every writer operation only appends to the output (write/flush suffice on a
     non-seekable stream); reads are sequential by construction of [read_container] (a function of the
     byte list consumed front to back) *)
-Theorem C04_append_only : forall compress sync sync_interval ops st,
-  exists x, out (run compress sync sync_interval st ops) = out st ++ x.
+Theorem C04_append_only : forall compress sync ops st,
+  exists x, out (run compress sync st ops) = out st ++ x.
 Proof. intros. apply run_appends. Qed.
 Print Assumptions C04_append_only.
 
 (** non-vacuity: null codec, zero-byte records, interval 1, three records -> three blocks *)
 Example C04_example :
   let sync := [1;2;3;4;5;6;7;8;9;10;11;12;13;14;15;16] in
-  let st := flush (fun b => b) sync (run (fun b => b) sync 1 (wcreate sync []) (write_all [ANull; ANull; ANull])) in
+  let st := flush (fun b => b) sync (run (fun b => b) sync (wcreate sync [] 1) (write_all [ANull; ANull; ANull])) in
   read_container Ok [] SNull 5 5 9 (out st) = ([ANull; ANull; ANull], EndOK) /\ len (out st) = 21 + 18.
 Proof. vm_compute. split; reflexivity. Qed.
